@@ -22,7 +22,7 @@ import (
 )
 
 func TestMain(m *testing.M) {
-	ev.C().Rule("rapid: start instants (on a boundary, +-1ns, arbitrary) x intervals {1s,10s,7s,1m,1.5s,250ms} x offsets in [0,interval) and beyond x advancement patterns (exact next-deadline steps, small steps, jumps over k intervals, a consumer that reads late). Layer 1: aligned ticker on a mock clock, arithmetic oracle on the tick values. Layer 2: real MetricFlusher with aligned flushing and a recording aggregator, clock stepped to the next deadline only while the flusher is parked. Non-trivial = offset != 0 with a start within 1ns of a boundary, or a jump >= 2 intervals")
+	ev.C().Rule("rapid: start instants (on a boundary, +-1ns, arbitrary) x intervals {1s,10s,7s,1m,1.5s,250ms} x offsets in [0,interval) and beyond x advancement patterns (exact next-deadline steps, small steps, jumps over k intervals, a consumer that reads late). Layer 1: aligned ticker on a mock clock, arithmetic oracle on the tick values. Layer 2: real MetricFlusher with aligned flushing and a recording aggregator, clock stepped to the next deadline only while the flusher is parked. Layer 3: the same flusher under jumps of k intervals plus a fraction (landing between boundaries) and an aggregator flush that blocks while 1..3 further deadlines pass; exact tick model of the mock clock until the first slow flush, afterwards elapsed must be a positive multiple. Non-trivial = offset != 0 with a start within 1ns of a boundary, or a jump >= 2 intervals (layer 1), or a jump / slow consumer (layer 3)")
 	vt.Main(m)
 }
 
@@ -211,6 +211,10 @@ type recAgg struct {
 	clck  *clock.Mock
 	calls []call
 	sig   chan struct{}
+	// slow consumer: the flush with these indexes blocks inside Flush until released
+	slow    map[int]bool
+	entered chan struct{}
+	release chan struct{}
 }
 
 type call struct {
@@ -221,8 +225,14 @@ type call struct {
 func (a *recAgg) ReceiveMap(*gostatsd.MetricMap) {}
 func (a *recAgg) Flush(d time.Duration) {
 	a.mu.Lock()
+	idx := len(a.calls)
 	a.calls = append(a.calls, call{at: a.clck.Now(), interval: d})
+	slow := a.slow[idx]
 	a.mu.Unlock()
+	if slow {
+		a.entered <- struct{}{}
+		<-a.release
+	}
 }
 func (a *recAgg) Process(f statsd.ProcessFunc) { f(gostatsd.NewMetricMap(false)) }
 func (a *recAgg) Reset()                       { a.sig <- struct{}{} }
@@ -295,5 +305,181 @@ func TestAlignedFlusher(t *testing.T) {
 			ev.C().Sample(map[string]interface{}{"start": start.UTC().Format(time.RFC3339Nano), "interval": interval.String(), "offset": offset.String(), "flushes": strings.Join(desc, " ")})
 		}
 		ev.C().Case(fmt.Sprintf("F|%v|%v|%v|%d", start.UnixNano(), interval, offset, n), nt, labels...)
+	})
+}
+
+// TestAlignedFlusherJumps drives the real flusher with clock jumps over several intervals that land between
+// boundaries, and with a consumer (aggregator flush) that stays busy while several deadlines pass.
+//
+// While every advance is followed by the flush it causes, the mock clock's documented rules give the exact tick
+// values (model below), so the elapsed time handed to the aggregators is compared exactly. After a slow flush the
+// ticks that survive the one-slot buffer depend on scheduling; from then on only what the property states is
+// checked: every later elapsed time is a positive multiple of the interval.
+func TestAlignedFlusherJumps(t *testing.T) {
+	rapid.Check(t, func(t *rapid.T) {
+		interval := rapid.SampledFrom(intervals).Draw(t, "interval")
+		offset := offsetGen(interval).Draw(t, "offset")
+		start := startGen(interval, offset).Draw(t, "start")
+		clck := clock.NewMock(start)
+		ctx, cancel := context.WithCancel(stats.NewContext(clock.Context(context.Background(), clck), stats.NewNullStatser()))
+		agg := &recAgg{clck: clck, sig: make(chan struct{}, 256), slow: map[int]bool{}, entered: make(chan struct{}, 1), release: make(chan struct{})}
+		fl := statsd.NewMetricFlusher(interval, offset, true, proc{agg}, nil)
+		done := make(chan struct{})
+		go func() { fl.Run(ctx); close(done) }()
+		released := true
+		defer func() {
+			cancel()
+			if !released {
+				close(agg.release)
+			}
+			<-done
+		}()
+		if !waitTimers(clck, 1) {
+			vt.Fail(t, "C18:ticker-never-armed", "flusher's aligned ticker did not arm within 30s")
+		}
+
+		// model of the aligned ticker on the mock clock
+		roundDown := func(d time.Time) time.Time { return d.Add(-offset).Truncate(interval).Add(offset) }
+		phase1 := true
+		deadline := roundDown(start).Add(interval) // first boundary strictly after start
+		now := start
+		var wantTicks []time.Time // tick value consumed by flush i, exact mode only
+		var wantAt []time.Time
+		fire := func(target time.Time) {
+			d := deadline
+			if phase1 {
+				phase1 = false
+				deadline = target.Add(interval) // the repeating ticker is created once the jump is over
+			} else {
+				deadline = d.Add((target.Sub(d)/interval + 1) * interval)
+			}
+			wantTicks = append(wantTicks, roundDown(d))
+			wantAt = append(wantAt, target)
+		}
+		var log []string
+		modelOK := true
+		advance := func(exact bool, label string) {
+			switch kind := rapid.IntRange(0, 2).Draw(t, label); {
+			case kind == 0:
+				at, _ := clck.AddNext()
+				log = append(log, "next")
+				if exact {
+					if !at.Equal(deadline) {
+						modelOK = false
+					}
+					now = at
+					fire(at)
+				}
+			default:
+				k := rapid.IntRange(1, 4).Draw(t, "k")
+				d := interval*time.Duration(k) + time.Duration(rapid.Int64Range(0, int64(interval)-1).Draw(t, "extra"))
+				at := clck.Add(d)
+				log = append(log, "jump "+d.String())
+				if exact {
+					now = at
+					fire(at)
+				}
+			}
+		}
+		waitFlush := func(what string) {
+			select {
+			case <-agg.sig:
+			case <-time.After(30 * time.Second):
+				vt.Fail(t, "C18:flush-missing", "%s: a deadline passed but the flusher did not flush within 30s (start %v interval %v offset %v, %v)", what, start, interval, offset, log)
+			}
+		}
+		exact := true
+		sawSlow, sawJump := false, false
+		nsteps := rapid.IntRange(2, 8).Draw(t, "steps")
+		for i := 0; i < nsteps; i++ {
+			if rapid.IntRange(0, 4).Draw(t, "slow") == 0 && exact {
+				// the next flush stays inside the aggregator while further deadlines pass
+				agg.mu.Lock()
+				agg.slow[len(agg.calls)] = true
+				agg.mu.Unlock()
+				released = false
+				advance(true, "advance")
+				select {
+				case <-agg.entered:
+				case <-time.After(30 * time.Second):
+					vt.Fail(t, "C18:flush-missing", "slow flush never started (%v)", log)
+				}
+				log = append(log, "(flush blocks)")
+				exact = false
+				sawSlow = true
+				m := rapid.IntRange(1, 3).Draw(t, "missed")
+				for j := 0; j < m; j++ {
+					if rapid.Bool().Draw(t, "small") {
+						d := time.Duration(rapid.Int64Range(1, int64(interval)-1).Draw(t, "smallstep"))
+						clck.Add(d)
+						log = append(log, "add "+d.String())
+					}
+					advance(false, "advance")
+				}
+				agg.release <- struct{}{}
+				released = true
+				log = append(log, "(released)")
+				waitFlush("slow flush")
+				waitFlush("buffered tick after the slow flush")
+				continue
+			}
+			advance(exact, "advance")
+			if strings.HasPrefix(log[len(log)-1], "jump") {
+				sawJump = true
+			}
+			waitFlush("advance")
+		}
+		cancel()
+		<-done
+		agg.mu.Lock()
+		calls := append([]call(nil), agg.calls...)
+		agg.mu.Unlock()
+		var desc []string
+		for _, c := range calls {
+			desc = append(desc, fmt.Sprintf("%s/%v", c.at.Format("15:04:05.000000000"), c.interval))
+		}
+		if !modelOK {
+			ev.C().Excluded("c18-mock-model-mismatch", 1)
+		}
+		var total time.Duration
+		for i, c := range calls {
+			if i == 0 {
+				continue
+			}
+			if c.interval <= 0 || c.interval%interval != 0 {
+				vt.Fail(t, "C18:reported-interval", "flush %d reports elapsed %v to the aggregators; must be a positive multiple of %v (start %v offset %v, advances %v, flushes %v)", i, c.interval, interval, start, offset, log, desc)
+			}
+			total += c.interval
+			if total > c.at.Sub(start) {
+				vt.Fail(t, "C18:reported-interval", "flushes 1..%d report %v elapsed in total but only %v passed since start (advances %v, flushes %v)", i, total, c.at.Sub(start), log, desc)
+			}
+			if modelOK && i < len(wantTicks) {
+				if want := wantTicks[i].Sub(wantTicks[i-1]); c.interval != want {
+					vt.Fail(t, "C18:reported-interval", "flush %d reports elapsed %v; the ticks it and its predecessor consumed are %v and %v, %v apart (interval %v offset %v start %v, advances %v, flushes %v)", i, c.interval, wantTicks[i-1], wantTicks[i], want, interval, offset, start, log, desc)
+				}
+			}
+		}
+		if modelOK {
+			for i := range wantAt {
+				if i < len(calls) && !calls[i].at.Equal(wantAt[i]) {
+					vt.Fail(t, "C18:flush-count", "flush %d ran when the clock read %v, expected right after the advance to %v (advances %v, flushes %v)", i, calls[i].at, wantAt[i], log, desc)
+				}
+			}
+		}
+		if len(calls) < len(wantTicks) {
+			vt.Fail(t, "C18:flush-count", "%d deadlines reached one by one, only %d flushes (advances %v)", len(wantTicks), len(calls), log)
+		}
+		_ = now
+		labels := []string{"layer=flusher-jumps", "interval=" + interval.String()}
+		if sawSlow {
+			labels = append(labels, "slow-consumer")
+		}
+		if sawJump {
+			labels = append(labels, "jump-off-boundary")
+		}
+		if ev.C().WantSample() {
+			ev.C().Sample(map[string]interface{}{"start": start.UTC().Format(time.RFC3339Nano), "interval": interval.String(), "offset": offset.String(), "advances": log, "flushes": strings.Join(desc, " ")})
+		}
+		ev.C().Case(fmt.Sprintf("J|%v|%v|%v|%v", start.UnixNano(), interval, offset, log), sawSlow || sawJump, labels...)
 	})
 }
